@@ -12,6 +12,7 @@ The oracle reads the property off the implementation's answer alone:
 """
 import consts_stream
 import runner
+from checks import c12
 
 I64_MIN, I64_MAX, U64_MAX = -(2 ** 63), 2 ** 63 - 1, 2 ** 64 - 1
 
@@ -232,7 +233,7 @@ class Spec(runner.Spec):
     prop = "C15"
     # `consts`: the MIN/MAX constants of the COMPILED zoo types (after the macro's re-parse of the
     # attribute) against the bounds the ASN.1 source declares
-    streams = [InttypeStream(), consts_stream.ConstsFromSource("C15")]
+    streams = [InttypeStream(), consts_stream.ConstsFromSource("C15"), c12.ResolveWitnesses()]
     assumptions = [
         "bounds are i64 literals (what the parser can read); a bound outside i64 is taken for a value reference and the module is rejected (no type generated) - outside the property",
         "a 'constraint' with lower > upper is not an ASN.1 value range; such requests only feed the correspondence (casts), not the oracle",
